@@ -57,11 +57,11 @@ func c15Run(draft03 bool, stream, D []byte, maxRS uint64, dstSize int, oneByte b
 	}
 }
 
-// VH_C15_ArbitraryStream: arbitrary stream (8 symbolic record-size bytes + L symbolic bytes, L = 0..2*(2+32)+2)
+// VH_C10_C15_ArbitraryStream: arbitrary stream (8 symbolic record-size bytes + L symbolic bytes, L = 0..2*(2+32)+2)
 // against an arbitrary 32-byte digest, maxRecordSize 2, both drafts, destination sizes {1, 64}; bytes.Reader source
 // (quick) plus a one-byte-at-a-time source (thorough).  SHA-256 is an uninterpreted collision-free function, so the
 // stream may contain values that happen to be proofs.  Specification: refDecode.
-func VH_C15_ArbitraryStream() {
+func VH_C10_C15_ArbitraryStream() {
 	vh.MustReach("refused", "clean-eof", "error")
 	draft03 := vh.Choose(2) == 1
 	lens := []int{0, 1, 2, 3, 33, 34, 35, 36, 37, 67, 68, 69, 70}
@@ -87,10 +87,10 @@ func VH_C15_ArbitraryStream() {
 	c15Run(draft03, stream, D, 2, dst, oneByte)
 }
 
-// VH_C15_LargeLimit: same with maxRecordSize 16384 and a fully symbolic 8-byte record size (so every
+// VH_C10_C15_LargeLimit: same with maxRecordSize 16384 and a fully symbolic 8-byte record size (so every
 // record size 0..2^64-1 is covered; sizes above the remaining input collapse into one class), L in
 // {0, 1, 40, 41, 75}.
-func VH_C15_LargeLimit() {
+func VH_C10_C15_LargeLimit() {
 	vh.MustReach("refused", "clean-eof", "error")
 	draft03 := vh.Choose(2) == 1
 	lens := []int{0, 1, 40, 41, 75}
